@@ -15,6 +15,9 @@ SPELL = [
 ]
 
 
+SPECS = ["", "run 1", "  \n", "run 3"]        # a phony target (empty or blank spec) is a target like any other
+
+
 def make_targets(nt, nf, roles, order, names=None):
     """roles[t][f] concrete ints 0..3; order = permutation of range(nt) (definition order).
     Returns (list of targets in definition order, dict index->target)."""
@@ -25,7 +28,7 @@ def make_targets(nt, nf, roles, order, names=None):
         shape_in = ins if t % 2 == 0 else {"grp": ins}
         shape_out = {"o%d" % i: p for i, p in enumerate(outs)} if t % 2 == 0 else [outs]
         nm = names[t] if names else "T%d" % t
-        by_index[t] = Target(name=nm, inputs=shape_in, outputs=shape_out, options={}, working_dir=WDIRS[t], spec="run %d" % t)
+        by_index[t] = Target(name=nm, inputs=shape_in, outputs=shape_out, options={}, working_dir=WDIRS[t], spec=SPECS[t])
     return [by_index[t] for t in order], by_index
 
 
